@@ -1,36 +1,23 @@
 //! Native harness binary (fusion build: io_uring + polling drivers).
 
-mod c01;
-mod c02;
-mod c03r;
-mod c05;
-mod c06;
-mod c07;
 mod c08;
 mod c09;
 mod c14;
-mod c17;
 mod c18;
 mod c19;
 mod c20;
 
 use vcommon::Args;
 
+
 fn main() {
     vcommon::panics::install_hook();
     let args = Args::parse();
     match args.cmd.as_str() {
         "noop" => {}
-        "c01" => c01::main(&args),
-        "c02" => c02::main(&args),
-        "c03r" => c03r::main(&args),
-        "c05" => c05::main(&args),
-        "c06" => c06::main(&args),
-        "c07" => c07::main(&args),
         "c08" => c08::main(&args),
         "c09" => c09::main(&args),
         "c14" => c14::main(&args),
-        "c17" => c17::main(&args),
         "c18" => c18::main(&args),
         "c19" => c19::main(&args),
         "c20" => c20::main(&args),
